@@ -18,7 +18,7 @@ CHECKS = {
    "property-based testing: exhaustive small-scope sweep + random sequences; oracle = union-find reference model; trace invariant at CLI level"),
  "C18": ("fault_enumeration",
    "for every generated workspace the n output operations of the push are listed through a cfg-guarded hook and every single one (k = 1..n) is failed in turn on a fresh copy; additionally write(2) itself is made to fail through RLIMIT_FSIZE, the push is run as an unprivileged user against a read-only directory (unlink fails) or a read-only parent of a directory it empties (rmdir fails), and real obstacles are placed (.pc or a backup directory being a regular file, the reject path being a directory); each faulty run must exit 1 with a message naming the file and must not record patches whose files are not all written",
-   "faults at operation boundaries, EFBIG inside write(2) and wrong-type path components; no partial-write-then-success, fsync or crash faults",
+   "faults at operation boundaries, EFBIG inside write(2), wrong-type path components and a dangling symbolic link into a missing directory where a file is created; no partial-write-then-success, fsync or crash faults",
    "fault injection enumerated per generated workspace (every k-th output operation) + kernel-level write faults; oracle = exit status / message / applied-patches invariant"),
  "C16": ("exploration",
    "generated workspaces with -pN/-R spellings, names spelled a//b, a/./b, ./a/b or absolute with the root as first stripped component, DOS line ends, and differing ---/+++ names (also under -R) whose resolution depends on files created, deleted or renamed earlier in the same run; each is pushed sequentially, in parallel and split over two invocations; all must equal the model tree and the backup entries must name the resolved path",
